@@ -455,7 +455,10 @@ func generateProgCases(m map[string]string) (cases []progCase, objs map[int]*rul
 		// a literal that ends in an optional character, a gap, and a literal that starts with that character: the
 		// required literals on the two sides of the gap must not be read as one
 		for _, s := range []string{"banners*\\d+small", "ads{0,1}\\d+script", "foo*.+oops", "tracks*[0-9]+s\\.js", "xa*[a-z]+ab", "\\/pixels*\\w+\\.gif",
-			"ban+ers*\\D+s1"} {
+			"ban+ers*\\D+s1",
+			// expressions whose own text begins or ends with a slash: the rule text then has two in a row, and is an
+			// expression all the same
+			"/cdn.example.org/ads", "/banner\\d+/x", "ads/pixel/", "/"} {
 			add("/"+s+"/", "", "")
 		}
 	}
